@@ -39,7 +39,11 @@ def build_vocab():
                         continue
                     voc.append((S, inv, m, attr, term))
     voc += [(S, False, "REGEX", ".", "^a/b$"), (S, False, "REGEX", "a", "x_y"),
-            (S, True, "REGEX", ".", "a b")]
+            (S, True, "REGEX", ".", "a b"),
+            # expressions which start and end with a quote: the text of a
+            # regular expression is verbatim, the quotes belong to it
+            (S, False, "REGEX", ".", "'x'"), (S, False, "REGEX", "a", '"[^"]*"'),
+            (S, True, "REGEX", ".", "'")]
     voc += [(KW, False, "HAS_CHILD", ["a"]), (KW, True, "HAS_CHILD", ["a"]),
             (KW, False, "HAS_CHILD", ["&x"]),
             (KW, False, "MAX", []), (KW, False, "MAX", ["a"]),
@@ -379,7 +383,7 @@ def _run_hyp(shard, res, dl):
                   st.one_of(st.just("."), operand), operand).map(
             lambda t: (S, t[0], t[1], t[2], t[3])),
         st.tuples(st.booleans(), operand,
-                  st.text(alphabet="ab1 .^$[]()\\d+*_/", min_size=1,
+                  st.text(alphabet="ab1 .^$[]()\\d+*_/'\"", min_size=1,
                           max_size=6).filter(lambda t: t.strip() == t)).map(
             lambda t: (S, t[0], "REGEX", ".", t[2])),
         st.sampled_from([v for v in VOCAB if v[0] == KW]),
